@@ -79,7 +79,7 @@ func (fs *fastSync) VerifPreConsuming(head *types.Header) (uint64, error) {
 func (fs *fastSync) VerifProcessBatch(b *batch, attempt int) error {
 	return fs.processBatch(b, attempt)
 }
-func (fs *fastSync) VerifDropPreliminaries() { fs.dropPreliminaries() }
+func (fs *fastSync) VerifDropPreliminaries()   { fs.dropPreliminaries() }
 func (fs *fastSync) VerifPostConsuming() error { return fs.postConsuming() }
 func (fs *fastSync) VerifDeferred() int        { return len(fs.deferredHeaders) }
 func (fs *fastSync) VerifBatchSize() uint64    { return fs.batchSize() }
